@@ -55,6 +55,11 @@ def obligations(tier):
         for L in ([1, 2, 3, 4] if q else [1, 2, 3, 4, 5, 6]):
             o.append(dec('%s-decompress' % nm, 14, L, ['src/compression/%s.c' % nm], ['-DCODEC=%d' % c, '-DCAP=12'], 'capacity 0..12 symbolic', timeout=600,
                          ))
+    for c, nm in enumerate(['snappy', 'lz4']):
+        o.append(E2('%s-script/exact-capacity' % nm, H, ['src/compression/%s.c' % nm], ['-DMODE=16', '-DL=4', '-DCODEC=%d' % c], ref=['ref_%s.c' % nm, 'ref_rle.c'], leaks=True,
+                    timeout=900, fork_max=16, max_paths=300000,
+                    bounds='streams built by the reference encoder from a symbolic script: literal run 1..10, match (offset 1..literal length, length 4..%d), tail literals 0..13, '
+                           'all literal bytes symbolic; output buffer of exactly the decoded size' % (11 if nm == 'snappy' else 16)))
     for c, nm in enumerate(['zstd', 'gzip']):
         if nm == 'gzip': continue      # zlib's streaming API (z_stream) is not modelled: outside the claim
         o.append(dec('%s-wrapper' % nm, 15, 4, ['src/compression/%s.c' % nm], ['-DCODEC=%d' % c, '-DCAP=8'], 'capacity 0..8 symbolic; libzstd = contract stub (arbitrary status, arbitrary output within capacity)', timeout=300,
